@@ -42,6 +42,11 @@ def diff_sections(rng):
         "sub/b.py": "# <block name=\"beta\" keep-unique>\nu\nu\n# </block>\ny = 2\n",
         "sub/dir/c.py": "# <block name=\"gamma\" affects=\"a.py:nothere, sub/b.py:beta\">\nchanged\n# </block>\n",
         "new.py": "# <block name=\"delta\" line-count=\"<2\">\nn1\nn2\n# </block>\n",
+        # namesakes of the diff's files below the directories the runs are started from (healthy, not in the diff)
+        "sub/a.py": "# <block name=\"alpha2\" keep-sorted>\na\nb\n# </block>\n",
+        "sub/dir/a.py": "# <block name=\"alpha3\" keep-sorted>\na\nb\n# </block>\n",
+        "sub/new.py": "# <block name=\"delta2\" line-count=\"<9\">\nn1\n# </block>\n",
+        "sub/dir/new.py": "# <block name=\"delta3\" line-count=\"<9\">\nn1\n# </block>\n",
     }
     sec = {
         "a.py": "diff --git a/a.py b/a.py\nindex 1..2 100644\n--- a/a.py\n+++ b/a.py\n@@ -3 +3 @@\n-c\n+b\n",
@@ -91,6 +96,14 @@ def run(chk):
         inputs.append(("diff", files, sec, [], {}, "report"))
         inputs.append(("difflist", files, sec, ["list"], {}, "report"))
         inputs.append(("diffglob", files, sec, ["**/*.py"], {}, "report"))
+        # (2b) files with the same last extension but different grammars: go.mod / go.sum are Go module files, any other
+        #      *.mod / *.sum is nothing; whichever is met first must not decide for the other
+        gm = '// <block name="req" keep-sorted>\nb\na\n// </block>\n'
+        gfiles = {"go.mod": "module m\ngo 1.20\n" + gm, "legacy.mod": gm, "zz/go.sum": gm, "zz/check.sum": gm, "aa/other.mod": gm}
+        gsec = {f: "diff --git a/%s b/%s\n--- a/%s\n+++ b/%s\n@@ -%d +%d @@\n-c\n+b\n" % (f, f, f, f, 4 if f == "go.mod" else 2, 4 if f == "go.mod" else 2)
+                for f in gfiles}
+        inputs.append(("gomod-scan", gfiles, None, [], {}, "report"))
+        inputs.append(("gomod-diff", gfiles, gsec, [], {}, "report"))
         # (3) blocks sharing one stateful script
         wd = vlib.subdir("c20-lua")
         script = os.path.join(wd, "budget.lua")
@@ -162,6 +175,10 @@ def run(chk):
                 chk.violation("input %s: no validator fails, but the runs ended with %s" % (name, vs[0][:2]), {"concrete": cs[0]})
             if name == "lua-state" and (vs[0][1] != 0 or vs[0][2]):
                 chk.violation("blocks sharing one script influenced each other: %s" % str(vs[0])[:300], {"concrete": cs[0]})
+            if name.startswith("gomod"):
+                fl_ = sorted({json.loads(d)[0] for d in vs[0][2]})
+                if fl_ != ["go.mod", "zz/go.sum"]:
+                    chk.violation("go.mod / go.sum next to other *.mod / *.sum files: diagnostics for %s" % fl_, {"concrete": cs[0]})
             if name == "diff":
                 codes = sorted(json.loads(d)[1] for d in vs[0][2])
                 if codes != ["affects", "keep-sorted", "keep-unique", "line-count"]:
